@@ -956,6 +956,66 @@ pub fn run_long(case: &LongCase, st: &mut Stats) -> CaseResult {
             }
         }
     }
+    // aligned gaps: a counter of public calls kept in a byte or a 16-bit word comes round again after exactly 2^8 or
+    // 2^16 calls. 32 small diagrams on variables of their own are each queried once under one weight table, then
+    // another diagram (again on its own variables) is queried F times, then the 32 are queried in turn under a
+    // second table: for F = 2^16 - 32 (2^15 - 32, should a query count twice; 2^8 - 32) each of them is asked
+    // exactly 2^16 (2^15, 2^8) calls after its first query
+    {
+        const M: usize = 32;
+        let nv = 2 * M + 2;
+        let b2 = RobddBuilder::<rsdd::builder::cache::AllIteTable<BddPtr>>::new(VarOrder::linear_order(nv));
+        let table = |salt: u64| -> (WmcParams<RealSemiring>, Vec<(f64, f64)>) {
+            let mut p = WmcParams::<RealSemiring>::default();
+            let mut w = Vec::new();
+            for v in 0..nv {
+                let k = (splitmix(case.seed ^ salt ^ (v as u64) << 20) % 7 + 1) as f64 / 8.0;
+                p.set_weight(VarLabel::new_usize(v), RealSemiring(1.0 - k), RealSemiring(k));
+                w.push((1.0 - k, k));
+            }
+            (p, w)
+        };
+        let (p1, w1) = table(0x11);
+        let (p2, w2) = table(0x22);
+        let lit = |v: usize| b2.var(VarLabel::new_usize(v), true);
+        let diagrams: Vec<BddPtr> = (0..M).map(|i| if i % 2 == 0 { b2.xor(lit(2 * i), lit(2 * i + 1)) } else { b2.or(lit(2 * i), lit(2 * i + 1).neg()) }).collect();
+        let want = |i: usize, w: &Vec<(f64, f64)>| -> f64 {
+            let (a, c) = (w[2 * i], w[2 * i + 1]);
+            if i % 2 == 0 {
+                a.1 * c.0 + a.0 * c.1
+            } else {
+                // x | !y = 1 - (!x & y)
+                a.1 * c.0 + a.1 * c.1 + a.0 * c.0
+            }
+        };
+        let filler = b2.and(lit(2 * M), lit(2 * M + 1));
+        let filler_want = w1[2 * M].1 * w1[2 * M + 1].1;
+        // every count is one public call, so with gap - M filler calls each of the M diagrams is asked again exactly
+        // `gap` calls after its first query; a few neighbouring filler lengths are tried as well
+        for (gap, d) in [(1usize << 16, 0isize), (1 << 16, -1), (1 << 16, 1), (1 << 16, -2), (1 << 16, 2), (1 << 15, 0), (1 << 8, 0), (1 << 8, 1), (1 << 8, -1)] {
+            for (i, d) in diagrams.iter().enumerate() {
+                let got = d.unsmoothed_wmc(&p1).0;
+                ensure!(got == want(i, &w1), "C10/answer-depends-on-history:long-sequence", "count of a two-variable diagram is {} instead of {}", got, want(i, &w1));
+            }
+            for k in 0..(gap as isize - M as isize + d) as usize {
+                let got = filler.unsmoothed_wmc(&p1).0;
+                ensure!(got == filler_want, "C10/answer-depends-on-history:long-sequence", "call #{} of the same count on one diagram returned {} instead of {}", k, got, filler_want);
+            }
+            for (j, d) in diagrams.iter().enumerate() {
+                let got = d.unsmoothed_wmc(&p2).0;
+                ensure!(
+                    got == want(j, &w2),
+                    "C10/answer-depends-on-history:long-sequence",
+                    "a two-variable diagram queried about {} public calls after its first query, now under other weights, counts {}; the sum over its models is {} (under the earlier weights it was {})",
+                    gap,
+                    got,
+                    want(j, &w2),
+                    want(j, &w1)
+                );
+            }
+        }
+        st.bump("long.aligned_gap_experiments");
+    }
     st.add("long.queries_issued", total);
     st.flag("long.more_than_65536_queries", total > 65_536);
     let classes: BTreeSet<&'static str> = queries.iter().map(|q| q.class()).collect();
@@ -968,7 +1028,7 @@ pub fn run_long(case: &LongCase, st: &mut Stats) -> CaseResult {
 impl SubCheckT for ManyQueries {
     type Case = LongCase;
     const NAME: &'static str = "many_queries_on_one_builder";
-    const RULE: &'static str = "four BDDs sharing nodes over 2..6 variables and 4..16 distinct queries without diagram results (counts in seven semirings, evaluate, count_nodes, semantic hashes, marginal_map, meu, bb), issued 66 000 .. 140 000 times in a pseudo-random order on one builder (beyond 2^16 calls, where a narrow per-call counter would wrap): every answer equals the answer of that query alone on a freshly built copy, and every 4096 calls every node reports an empty scratch slot. Non-trivial: more than 65 536 calls of at least two result types";
+    const RULE: &'static str = "four BDDs sharing nodes over 2..6 variables and 4..16 distinct queries without diagram results (counts in seven semirings, evaluate, count_nodes, semantic hashes, marginal_map, meu, bb), issued 66 000 .. 140 000 times in a pseudo-random order on one builder (beyond 2^16 calls, where a narrow per-call counter would wrap): every answer equals the answer of that query alone on a freshly built copy, and every 4096 calls every node reports an empty scratch slot; then 32 two-variable diagrams on variables of their own are queried once, another diagram 2^16 - 32 times (also one or two calls more or fewer; 2^15 - 32; 2^8 - 32), and the 32 again under other weights, so that each is asked exactly 2^16 (2^15, 2^8) calls after its first query. Non-trivial: more than 65 536 calls of at least two result types";
     fn cases(tier: Tier) -> u32 {
         tier.pick(6, 60)
     }
